@@ -12,9 +12,15 @@ static Fields gen(Tape &t) {
   Fields f;
   LongMode lm(t);
   if (lm.on()) f.seti("long", 1);
-  int src = t.weighted({4, 4, 3});
+  int src = t.weighted({4, 4, 3, 3});  // parsed / resolved / normalised / created reference
   f.seti("src", src);
-  if (src == 1) {
+  if (src == 3) {
+    GenUri S, B; int k;
+    g_source_base(t, &S, &B, &k);
+    f.set("base", B.text());
+    f.set("text", S.text());
+    f.seti("opt", t.below(2));
+  } else if (src == 1) {
     GenUri b = g_base(t, true);
     GenUri r = g_ref(t, b);
     f.set("base", b.text());
@@ -25,6 +31,7 @@ static Fields gen(Tape &t) {
     if (src == 2) f.seti("mask", t.chance(1, 2) ? 63 : t.below(64));
   }
   f.seti("cwnull", t.below(3) == 0);
+  f.seti("owned", t.chance(3, 4) ? 0 : 1);  // uriMakeOwner on the object before it is written out
   return f;
 }
 
@@ -39,11 +46,12 @@ template <class A> static Verdict check_type(const Fields &f, bool *nontrivial, 
   const typename A::Uri *u = nullptr;
   parse_via<A>(p, PE_SINGLE_EX, widen<Ch>(f.get("text")));
   if (p.rc != 0) return Verdict::discard();
-  if (src == 1) {
+  if (src == 1 || src == 3) {
     parse_via<A>(pb, PE_SINGLE_EX, widen<Ch>(f.get("base")));
     if (pb.rc != 0) return Verdict::discard();
-    int rc = A::AddBaseUriEx(&res, &p.uri, &pb.uri, (UriResolutionOptions)f.geti("opt"));
-    if (rc != 0) return Verdict::discard();
+    int rc = src == 1 ? A::AddBaseUriEx(&res, &p.uri, &pb.uri, (UriResolutionOptions)f.geti("opt"))
+                      : A::RemoveBaseUri(&res, &p.uri, &pb.uri, f.geti("opt") ? URI_TRUE : URI_FALSE);
+    if (rc != 0) { A::FreeUriMembers(&res); return Verdict::discard(); }
     haveRes = true;
     u = &res;
   } else {
@@ -54,6 +62,7 @@ template <class A> static Verdict check_type(const Fields &f, bool *nontrivial, 
     u = &p.uri;
   }
   struct Cleanup { typename A::Uri *r; bool on; ~Cleanup() { if (on) A::FreeUriMembers(r); } } cl{&res, haveRes};
+  if (f.geti("owned")) VF_REQUIRE(A::MakeOwner(haveRes ? &res : &p.uri) == 0, "%s: uriMakeOwner failed", A::name());
 
   int N = -1;
   VF_REQUIRE(A::ToStringCharsRequired(u, &N) == 0, "%s: charsRequired failed", A::name());
